@@ -79,14 +79,19 @@ def _async_send(ex, recv, args, kwargs, st, frame, node):
     b = dict(zip(names, args))
     b.update(kwargs)
     addr = b.get('addr')
-    has_addr = not (addr is None or isinstance(addr, NoneV))
-    from pyvc.types import STR as _STR
-    addr_t = ex.term(addr, st, _STR) if has_addr else z3.StringVal('') if False else ex.term(PyConst(''), st, _STR)
+    from pyvc.types import STR as _STR, Str as _Str
+    if addr is None or isinstance(addr, NoneV):
+        has_t, addr_t = z3.BoolVal(False), ex.term(PyConst(''), st, _STR)
+    elif isinstance(addr, RefV):
+        # an Optional[str] parameter modelled as an opaque object: destination present iff not None, spelling unknown
+        has_t, addr_t = addr.term != NONE, fresh('addr', _Str)
+    else:
+        has_t, addr_t = z3.BoolVal(True), ex.term(addr, st, _STR)
     port = b.get('port')
     port_t = ex.num(port, st)[0] if port is not None else z3.IntVal(5353)
     tr = b.get('transport')
     tr_t = tr.term if (tr is not None and not isinstance(tr, NoneV)) else NONE
-    ex.l_append(ev, Sc(et.mk(_clock_now(ex, st), out.term, z3.BoolVal(has_addr), addr_t, port_t, tr_t), et), st)
+    ex.l_append(ev, Sc(et.mk(_clock_now(ex, st), out.term, has_t, addr_t, port_t, tr_t), et), st)
     yield st, NoneV()
 
 
